@@ -395,9 +395,9 @@ pub fn run_c09(ctx: &Ctx, st: &mut Local) {
         v
     };
     let texts: Vec<(usize, usize)> = if ctx.quick() {
-        vec![(1, 4096), (2, 4096), (3, 3000), (5, 20_000), (6, 8000), (8, 12_000), (8, 40_000), (9, 12_000), (11, 16_000), (11, 40_000), (13, 11_000)]
+        vec![(1, 4096), (2, 4096), (3, 3000), (5, 20_000), (6, 8000), (8, 12_000), (8, 40_000), (9, 12_000), (11, 16_000), (11, 40_000), (13, 10_944)]
     } else {
-        vec![(0, 4096), (1, 4096), (2, 4096), (3, 3000), (4, 2048), (8, 12_000), (8, 40_000), (9, 12_000), (9, 40_000), (10, 4000), (11, 16_000), (11, 40_000), (11, 80_000), (13, 11_000), (13, 75_000), (1, 65536), (2, 70000), (8, 140_000), (5, 200_000)]
+        vec![(0, 4096), (1, 4096), (2, 4096), (3, 3000), (4, 2048), (8, 12_000), (8, 40_000), (9, 12_000), (9, 40_000), (10, 4000), (11, 16_000), (11, 40_000), (11, 80_000), (13, 10_944), (13, 76_608), (1, 65536), (2, 70000), (8, 140_000), (5, 200_000)]
     };
     let mut f = |st: &mut Local, eng: &str, _i: u64, c: &StreamCase, k: &Comp| {
         let fam = k.family();
